@@ -18,6 +18,15 @@ func init() {
 }
 
 func runC02(c *core.Ctx) {
+	runC02own(c)
+	if c.Property == "C02" {
+		// "the outcome is committed iff the client had been told success": the undetermined /
+		// cleanup bookkeeping of C03 is the structural core of that clause as well.
+		c.Import(runC03, "C03", []string{"R1", "R2", "R3", "R6", "R7"}, "viaC03")
+	}
+}
+
+func runC02own(c *core.Ctx) {
 	p := c.P
 	a0 := rule(c, "C02.anchors")
 	grp := a0.fn(pkgTxn, "twoPhaseCommitter", "doActionOnGroupMutations")
